@@ -16,6 +16,7 @@ ASSUMPTIONS = [
 ]
 SPEC = {
     'quick': [('K21', 'lend', 4),
+              ('K38', 'lend', 3),
               ('K24', 'liq', 3),
               ('K25', 'lend', 3),
               ('K0p', 'small', 3),
